@@ -159,7 +159,7 @@ pub proof fn lemma_c05_v2_tight(s: Seq<u8>) -> (h: Seq<u8>)
 /// leave it Partial(a + k, b)
 pub proof fn lemma_c17_completion(s: Seq<u8>, t: Seq<u8>, r: Result<V2Header, V2Error>, r2: Result<V2Header, V2Error>)
     requires
-        c17_post(s, r), r matches Err(V2Error::Partial(_, _)),
+        c17_post(s, r), c17_controls_post(s, r), r matches Err(V2Error::Partial(_, _)),
         c02_post(s + t, r2), c05_v2_post(s + t, r2), c17_post(s + t, r2),
     ensures
         ({ let a = r->Err_0->Partial_0 as int; let b = r->Err_0->Partial_1 as int;
@@ -244,7 +244,7 @@ pub proof fn lemma_c14_partition(s: Seq<u8>)
 /// specification satisfies all of them at once, for every input
 pub proof fn lemma_v2_posts_consistent(s: Seq<u8>, r: Result<V2Header, V2Error>)
     requires v2_func_post(s, r)
-    ensures c02_post(s, r), c05_v2_post(s, r), c12_v2_post(s, r), c17_post(s, r)
+    ensures c02_post(s, r), c05_v2_post(s, r), c12_v2_post(s, r), c17_post(s, r), c17_controls_post(s, r)
 {
     if s.len() >= 16 {
         lemma_be16_range(s[14], s[15]);
